@@ -118,7 +118,9 @@ class _Gen:
         elif kind == "hostname":
             if rng.random() < 0.3:
                 o["allow_ipv4"] = False
-            if rng.random() < 0.3 and self.dns:
+            if rng.random() < 0.3 and self.dns and o.get("allow_ipv4", True):
+                # resolve=True with allow_ipv4=False rejects its own resolved address on re-validation
+                # (DESIGN 8.1: unspecified), so that combination is not generated
                 o["resolve"] = True
         elif kind == "filename":
             if c.filename_fs and rng.random() < 0.6:
@@ -510,8 +512,9 @@ def walk(sd, cfg, visit, node=None, path="", visit_cfg=None):
                 else:
                     visit("%s[%d]" % (p, i), f["item"], item)
     for key, value in cfg:
-        if key not in declared and not key.startswith("is_"):
-            visit((path + "." if path else "") + key, {"kind": "any", "o": {}, "dynamic": True}, value)
+        if key not in declared:
+            name = key if isinstance(key, str) else repr(key)   # e.g. bytes keys from a BSON document
+            visit((path + "." if path else "") + name, {"kind": "any", "o": {}, "dynamic": True}, value)
 
 
 _MISSING = object()
